@@ -39,5 +39,8 @@ HistOK == (Rec.op = "hist" /\ Done) => \A j \in 1..Len(Rec.steps) : StepOK(Rec.s
 PureOK == (Rec.op = "pure" /\ Done) =>
     /\ Rec.again = Rec.first
     /\ (Has("live") /\ Has("fresh")) => Rec.live = Rec.fresh
+\* histories in which receiver and argument of an earlier call are changed afterwards, each through its own public
+\* in-place methods: the other party stays as it was (no structure shared beyond the call)
+AfterOK == (Rec.op = "after" /\ Done) => Rec.a1 = Rec.a0 /\ Rec.o1 = Rec.o0
 NoCrash17 == ~Has("exc")
 =============================================================================
